@@ -45,6 +45,15 @@ def main():
     patch = os.path.join(md, 'patch.diff')
     demo = os.path.join(md, 'demo.py')
     meta = json.load(open(os.path.join(md, 'meta.json')))
+    reeval = md.startswith(os.path.join(VERIF, 'seeded'))
+    if reeval:
+        # re-evaluation of a kept change: meta.json is ours, the demo carries the path of the
+        # sub-agent's (long gone) worktree, which is rewritten to the scratch worktree given
+        src = open(demo).read().replace(meta['demo_expects_tree_at'], wt)
+        demo = os.path.join(wt, '.seeded_demo.py')
+        open(demo, 'w').write(src)
+        meta = {'property': meta.get('breaks_property'), 'title': meta.get('title'), 'mechanism': meta.get('mechanism'),
+                'needs': meta.get('needs_to_manifest'), 'files': meta.get('files'), '_orig_tree': meta['demo_expects_tree_at']}
     ran = []
     result = {'confirmed': False}
 
@@ -123,8 +132,9 @@ def main():
     if result['confirmed'] and not args.no_keep:
         dest = os.path.join(VERIF, 'seeded', args.sid)
         os.makedirs(dest, exist_ok=True)
-        shutil.copy(patch, os.path.join(dest, 'patch.diff'))
-        shutil.copy(demo, os.path.join(dest, 'demo.py'))
+        if not reeval:
+            shutil.copy(patch, os.path.join(dest, 'patch.diff'))
+            shutil.copy(demo, os.path.join(dest, 'demo.py'))
         meta_out = {
             'id': args.sid,
             'breaks_property': meta.get('property'),
@@ -133,7 +143,7 @@ def main():
             'needs_to_manifest': meta.get('needs'),
             'files': meta.get('files'),
             'source': 'independent sub-agent given only the property text and a scratch worktree',
-            'demo_expects_tree_at': wt,
+            'demo_expects_tree_at': meta.get('_orig_tree', wt),
             'demo_how_to_run': 'tools/run_seeded_demo.py %s <tree>   (rewrites the hard-coded tree path, then runs demo.py)' % args.sid,
             'confirmed': result['confirmed'],
             'what_was_run': ran,
@@ -143,6 +153,8 @@ def main():
         with open(os.path.join(dest, 'meta.json'), 'w') as fh:
             json.dump(meta_out, fh, indent=1)
             fh.write('\n')
+    if reeval and os.path.exists(demo):
+        os.unlink(demo)
     print(json.dumps({'sid': args.sid, 'confirmed': result['confirmed'],
                       'detected': {p: c['exit'] == 1 for p, c in checks.items()}}))
     return 0
